@@ -51,6 +51,19 @@ values for N > FAST_SIM_N are weighted sums taken with numpy.dot (error
 ``step`` return only length and tail of all_drift_states (the caller compares
 the complete lists itself at chosen moments).
 
+Round-4 widening (epochs so long -- or decay factors so small -- that eta^N leaves
+the range of normal doubles; decay factors 0 and 1): the weights of the simulated
+statistic are taken one by one as ``eta ** (N - i)`` with exponents N-1 ... 0, so the
+recent draws always carry the weights ..., eta^2, eta, 1 exactly as the property
+states, whatever N is; weights of draws further back than ~1075/log2(1/eta) samples
+underflow gradually to 0.0, which is their correctly rounded value (Python's float
+power does not raise on underflow).  ``0.0 ** 0`` is 1.0: for eta = 0 the simulated
+statistic is the last draw.  ``underflow_thresholds`` names the two denominators at
+which eta^N becomes subnormal / zero (the regions the ``uflow`` family of the check
+is laid out around).  Every step records the bounds it simulated in
+``diag["new_bounds"]`` so that the caller can compare them with the detector's own
+cache entry.
+
 The caller owns numpy's global RNG: it must seed it immediately before
 ``step`` with the same value it used before the real ``update`` (§2.3).
 Every bound comparison goes through the Decider ``D``.
@@ -98,6 +111,27 @@ def rounded_key(p, round_val):
         f = np.float64(p.numerator) / np.float64(p.denominator)
         return int(round(float(np.round(f, round_val)) * scale)), True
     return int(round(x)), False
+
+
+def underflow_thresholds(eta):
+    """(Ns, N0) for 0 < eta < 1: the smallest exponents at which the double ``eta ** N`` is
+    subnormal (< 2^-1022) and exactly 0.0."""
+    assert 0 < eta < 1
+    tiny = 2.0 ** -1022
+
+    def first(pred):
+        lo, hi = 0, 1
+        while not pred(eta ** hi):
+            lo, hi = hi, hi * 2
+        while hi - lo > 1:  # eta ** n is monotone in n
+            mid = (lo + hi) // 2
+            if pred(eta ** mid):
+                hi = mid
+            else:
+                lo = mid
+        return hi
+
+    return first(lambda x: x < tiny), first(lambda x: x == 0.0)
 
 
 def simulate_bounds(eta, p, N, num_mc, warning_level, detect_level):
@@ -247,6 +281,8 @@ class LFRModel:
             self.eta, p.numerator / p.denominator, N, self.num_mc, self.warning_level, self.detect_level
         )
         self.cache[key] = (b, self.epochs, p)
+        # what was simulated at this step (the caller may compare it with the detector's own cache entry)
+        diag["new_bounds"] = diag["new_bounds"] + [(k, N, p, b)]
         return b
 
     def step(self, ev, D):
@@ -260,6 +296,7 @@ class LFRModel:
             ),
             0,
         )
+        diag["new_bounds"] = []
         if self.state == "drift":
             self._epoch()
         self.total += 1
